@@ -7,6 +7,7 @@
 //     sendDeltaUpdatesToClient) on one end of a net.Pipe, constructed exactly as Server.serve constructs it;
 //   - the REAL syncclient main loop (handshake, gob/snappy decoder restart, decode loop) on the other end, delivering
 //     into a recording api.SyncerCallbacks whose calls can be held back (slow reader).
+//
 // One JSON line per case is written to $VERIF_OUT.
 package syncserver
 
@@ -486,130 +487,123 @@ func (c *caseRun) sleep() {
 	}
 }
 
-// client: connect, read with a random schedule while the history continues, drain, close.
-func (c *caseRun) client() {
+// one connection: real server-side handler and real client on the two ends of a pipe
+type vclient struct {
+	c        *caseRun
+	streamed bool
+	lg       *vlog
+	lc       *logCache
+	ls       *logSnap
+	rec      *vrec
+	srvWG    sync.WaitGroup
+	clWG     sync.WaitGroup
+	clCancel context.CancelFunc
+	clDone   atomic.Bool
+	freed    bool
+}
+
+func (c *caseRun) startClient() *vclient {
 	r := c.r
-	streamed := r.pct(50)
-	lg := &vlog{}
+	v := &vclient{c: c, streamed: r.pct(50), lg: &vlog{}}
 	sEnd, cEnd := net.Pipe()
 	connCxt, cancel := context.WithCancel(c.ctx)
-	lw := &logWriter{w: sEnd, l: lg}
-	lc := &logCache{inner: c.cache, l: lg}
-	ls := &logSnap{inner: c.srv.binSnapCaches[syncproto.CompressionSnappy][syncproto.SyncerTypeFelix], l: lg}
+	lw := &logWriter{w: sEnd, l: v.lg}
+	v.lc = &logCache{inner: c.cache, l: v.lg}
+	v.ls = &logSnap{inner: c.srv.binSnapCaches[syncproto.CompressionSnappy][syncproto.SyncerTypeFelix], l: v.lg}
 	c.connID++
+	// as in Server.serve
 	conn := &connection{
-		ID:              c.connID,
-		config:          &c.srv.config,
-		allCaches:       map[syncproto.SyncerType]BreadcrumbProvider{syncproto.SyncerTypeFelix: lc},
+		ID:        c.connID,
+		config:    &c.srv.config,
+		allCaches: map[syncproto.SyncerType]BreadcrumbProvider{syncproto.SyncerTypeFelix: v.lc},
 		allSnapshotters: map[syncproto.CompressionAlgorithm]map[syncproto.SyncerType]snapshotCache{
-			syncproto.CompressionSnappy: {syncproto.SyncerTypeFelix: ls}},
-		cxt:             connCxt,
-		cancelCxt:       cancel,
-		conn:            sEnd,
-		connW:           lw,
-		logCxt:          log.WithField("connID", c.connID),
-		encoder:         gob.NewEncoder(lw),
-		flushWriter:     func() error { return nil },
-		readC:           make(chan any),
-		allMetrics:      c.srv.perSyncerConnMetrics,
+			syncproto.CompressionSnappy: {syncproto.SyncerTypeFelix: v.ls}},
+		cxt:         connCxt,
+		cancelCxt:   cancel,
+		conn:        sEnd,
+		connW:       lw,
+		logCxt:      log.WithField("connID", c.connID),
+		encoder:     gob.NewEncoder(lw),
+		flushWriter: func() error { return nil },
+		readC:       make(chan any),
+		allMetrics:  c.srv.perSyncerConnMetrics,
 	}
-	var srvWG sync.WaitGroup
-	srvWG.Add(1)
-	go func() { _ = conn.handle(&srvWG) }()
+	v.srvWG.Add(1)
+	go func() { _ = conn.handle(&v.srvWG) }()
 
-	rec := &vrec{freeC: make(chan struct{}), permits: make(chan struct{}), tab: c.tab, pathID: c.pathID}
-	cl := syncclient.VerifNewOnConn(cEnd, rec, &syncclient.Options{
+	v.rec = &vrec{freeC: make(chan struct{}), permits: make(chan struct{}), tab: c.tab, pathID: c.pathID}
+	cl := syncclient.VerifNewOnConn(cEnd, v.rec, &syncclient.Options{
 		ReadTimeout: 1000 * time.Hour, WriteTimeout: 1000 * time.Hour,
-		SyncerType: syncproto.SyncerTypeFelix, DisableDecoderRestart: streamed,
+		SyncerType: syncproto.SyncerTypeFelix, DisableDecoderRestart: v.streamed,
 	})
 	clCtx, clCancel := context.WithCancel(c.ctx)
-	var clDone atomic.Bool
-	var clWG sync.WaitGroup
-	clWG.Add(1)
-	go func() { defer clWG.Done(); cl.VerifRun(clCtx); clDone.Store(true) }()
-
+	v.clCancel = clCancel
+	v.clWG.Add(1)
+	go func() { defer v.clWG.Done(); cl.VerifRun(clCtx); v.clDone.Store(true) }()
 	synctest.Wait()
-
-	permit := func() bool {
-		select {
-		case rec.permits <- struct{}{}:
-			synctest.Wait()
-			return true
-		default:
-			return false
-		}
-	}
-	slow := r.pct(70)
-	if slow {
-		c.tag("client:slow-reader")
-		// usually get past the handshake and (part of) the snapshot first
-		for k := r.intn(7); k > 0 && permit(); k-- {
-		}
-		steps := 2 + r.intn(10)
-		for s := 0; s < steps; s++ {
-			switch p := r.intn(100); {
-			case p < 45:
-				for k := 1 + r.intn(4); k > 0 && permit(); k-- {
-				}
-			case p < 85:
-				if r.pct(70) {
-					c.sleep() // crumbs of different ages: this is what makes the sender coalesce
-				}
-				c.push(false)
-			default:
-				c.sleep()
-			}
-		}
-	} else {
-		c.tag("client:fast-reader")
-		rec.free.Store(true)
-		close(rec.freeC)
-		synctest.Wait()
-		for s := r.intn(5); s > 0; s-- {
-			if r.pct(30) {
-				c.sleep()
-			}
-			c.push(false)
-		}
-	}
-	// drain
-	if slow {
-		rec.free.Store(true)
-		close(rec.freeC)
-	}
-	synctest.Wait()
-	lg.mu.Lock()
-	join := lc.firstSeq
-	if !streamed {
-		join = ls.seq
-	}
-	snapOK := (streamed && lc.calls > 0) || (!streamed && ls.used)
-	lg.mu.Unlock()
-	if streamed {
+	if v.streamed {
 		c.tag("client:streamed-snapshot")
 	} else {
 		c.tag("client:binary-snapshot")
 	}
-	dead := clDone.Load()
+	return v
+}
+
+// permit lets the client take one more callback, if one is waiting
+func (v *vclient) permit() bool {
+	select {
+	case v.rec.permits <- struct{}{}:
+		synctest.Wait()
+		return true
+	default:
+		return false
+	}
+}
+
+func (v *vclient) permits(k int) {
+	for ; k > 0 && v.permit(); k-- {
+	}
+}
+
+// free lets the client read without being held back from now on
+func (v *vclient) free() {
+	if !v.freed {
+		v.freed = true
+		v.rec.free.Store(true)
+		close(v.rec.freeC)
+	}
+	synctest.Wait()
+}
+
+// finish: the client has been freed and everything is quiescent, i.e. it has read everything published so far
+func (v *vclient) finish() {
+	c := v.c
+	v.lg.mu.Lock()
+	join := v.lc.firstSeq
+	if !v.streamed {
+		join = v.ls.seq
+	}
+	snapOK := (v.streamed && v.lc.calls > 0) || (!v.streamed && v.ls.used)
+	v.lg.mu.Unlock()
+	dead := v.clDone.Load()
 	npush := len(c.pushes)
-	// close
-	clCancel()
+	v.clCancel()
 	synctest.Wait()
 	c.cache.VerifWake()
-	srvWG.Wait()
-	clWG.Wait()
+	v.srvWG.Wait()
+	v.clWG.Wait()
 	synctest.Wait()
 
-	rec.mu.Lock()
-	obs := append([]string(nil), rec.obs...)
-	if rec.nInSync > 0 {
+	v.rec.mu.Lock()
+	obs := append([]string(nil), v.rec.obs...)
+	if v.rec.nInSync > 0 {
 		c.tag("client:told-insync")
 	}
-	rec.mu.Unlock()
+	v.rec.mu.Unlock()
 	if dead || !snapOK {
 		obs = append(obs, "CDead")
 	}
-	gs := lg.groups(streamed)
+	gs := v.lg.groups(v.streamed)
 	gstr := make([]string, len(gs))
 	multi := false
 	for i, g := range gs {
@@ -625,11 +619,89 @@ func (c *caseRun) client() {
 		c.tag("client:joined-after-start")
 	}
 	chunk := c.srv.config.MaxMessageSize // after ApplyDefaults
-	if !streamed {
+	if !v.streamed {
 		chunk = 1000
 	}
 	c.clients = append(c.clients, fmt.Sprintf("(mkCl %d %d %d [%s] [%s])", join, chunk, npush,
 		strings.Join(gstr, "; "), strings.Join(obs, "; ")))
+}
+
+func (c *caseRun) pushMaybeAfterSleep() {
+	if c.r.pct(70) {
+		c.sleep() // crumbs of different ages: this is what makes the sender coalesce
+	}
+	c.push(false)
+}
+
+// client: connect, read with a random schedule while the history continues, drain, close.
+func (c *caseRun) client() {
+	r := c.r
+	v := c.startClient()
+	if r.pct(70) {
+		c.tag("client:slow-reader")
+		// usually get past the handshake and (part of) the snapshot first
+		v.permits(r.intn(7))
+		steps := 2 + r.intn(10)
+		for s := 0; s < steps; s++ {
+			switch p := r.intn(100); {
+			case p < 45:
+				v.permits(1 + r.intn(4))
+			case p < 85:
+				c.pushMaybeAfterSleep()
+			default:
+				c.sleep()
+			}
+		}
+	} else {
+		c.tag("client:fast-reader")
+		v.free()
+		for s := r.intn(5); s > 0; s-- {
+			if r.pct(30) {
+				c.sleep()
+			}
+			c.push(false)
+		}
+	}
+	v.free()
+	v.finish()
+}
+
+// two connections open at the same time, reading at different speeds from the same cache (and, for pre-built
+// snapshots, sharing one snapshot)
+func (c *caseRun) concurrentClients() {
+	r := c.r
+	c.tag("client:two-concurrent")
+	a := c.startClient()
+	a.permits(r.intn(6))
+	for n := r.intn(3); n > 0; n-- {
+		c.pushMaybeAfterSleep()
+	}
+	b := c.startClient()
+	steps := 3 + r.intn(10)
+	for s := 0; s < steps; s++ {
+		switch p := r.intn(100); {
+		case p < 30:
+			a.permits(1 + r.intn(4))
+		case p < 60:
+			b.permits(1 + r.intn(4))
+		case p < 90:
+			c.pushMaybeAfterSleep()
+		case p < 95:
+			a.free()
+		default:
+			c.sleep()
+		}
+	}
+	a.free()
+	b.free()
+	// both have now read everything; close one after the other
+	if r.pct(50) {
+		a.finish()
+		b.finish()
+	} else {
+		b.finish()
+		a.finish()
+	}
 }
 
 func (c *caseRun) crumbsTerm() (string, int) {
@@ -665,7 +737,7 @@ func runCase(t *testing.T, seed uint64) vline {
 		defer cancel()
 		c.ctx = ctx
 		c.maxBatch = []int{1, 2, 3, 5, 8, 100, 0, 1, 2}[r.intn(9)] // 0 = default (100)
-		c.maxMsg = []int{1, 2, 3, 5, 100, 0}[r.intn(6)] // 0 = default (100)
+		c.maxMsg = []int{1, 2, 3, 5, 100, 0}[r.intn(6)]            // 0 = default (100)
 		c.tag(fmt.Sprintf("cfg:maxBatch=%d", c.maxBatch))
 		c.tag(fmt.Sprintf("cfg:maxMsg=%d", c.maxMsg))
 		switch p := r.intn(100); {
@@ -702,7 +774,11 @@ func runCase(t *testing.T, seed uint64) vline {
 			ncl = 2 + r.intn(2)
 		}
 		for i := 0; i < ncl; i++ {
-			c.client()
+			if r.pct(25) {
+				c.concurrentClients()
+			} else {
+				c.client()
+			}
 			for n := r.intn(3); n > 0; n-- {
 				c.push(false)
 				c.sleep()
